@@ -51,3 +51,12 @@ CLAIMS['C19'] = dict(category='proof', ref='8 C19',
          "still has the shape the model assumes (C19_source_shape, regenerated). Tied to the real broker by timed scenarios (K=1,2 s: "
          "silent from start, pinging, publishing, interval above the deadline) with a will witness. PARTIAL: real time, timers and "
          "scheduler latency are trusted, not modelled.")
+
+_CLIENT_TEXT = ("Sequential Lean model of the client role (Connect, publish/subscribe/unsubscribe/ping with their completion wrappers, "
+                "processIncoming as a client) tied to the real service.Client by differential runs against a scripted TCP peer (PINGREQ "
+                "barrier from the peer; the ack-before-registration interleaving is forced through the verif ack-window hook), and "
+                "compared event by event with a reference client written from MQTT 3.1.1 and the property text. %s")
+CLAIMS['C12'] = dict(category='exploration', ref='8 C12', text=_CLIENT_TEXT % "Theorems: under construction. Known findings E5 (ack processed before registration is lost), single ping slot, replayed on every run.",
+                     technique="Lean 4 executable model + reference specification, differential correspondence with forced interleaving; proofs in progress")
+CLAIMS['C20'] = dict(category='exploration', ref='8 C20', text=_CLIENT_TEXT % "Theorems: under construction. Known finding E9 (callback invoked once per matching filter of one request) replayed on every run.",
+                     technique="Lean 4 executable model + reference specification, differential correspondence; proofs in progress")
